@@ -45,6 +45,10 @@ def operand_menu():
             for k in DISP_L:
                 m.append(f"{k}(,%{b},{c})")
     m += ["%rax", "%rbx", "$0x8", "$0x10", "%fs:0x28"]
+    # operands with an EXTRA component: a segment override in front of an otherwise matching memory reference
+    for seg in ("%fs:", "%gs:", "%cs:"):
+        m += [f"{seg}0x8(%rax,%rbx,4)", f"{seg}(%rax,%rbx,4)", f"{seg}0x8(%rax)", f"{seg}(%rax)", f"{seg}0x8(,%rbx,4)"]
+    m += ["*0x8(%rax,%rbx,4)", "*0x8(%rax)", "*(%rax)"]
     return m
 
 
@@ -57,7 +61,8 @@ def spell_reg(r, pct):
 
 
 def rules_for(tier):
-    rules = []
+    rules = [e1.RuleCase("PL", [{"movq": ["0xffffffff80000000", {"$deref": {"main_reg": "r10", "register_multiplier": "r11", "constant_multiplier": 8,
+                                                                             "constant_offset": "-0x12345678"}}]}], "plong")]
     A, B = ["rax", "rbx"], ["rbx", "rcx"]
     C = [("1", 1), ("4", 4), ("8", 8), ("4", "0x4"), ("4", "4")]
     K = [("0x7fffffff", "0x7fffffff"), ("0x7fffffff", "7fffffff"), ("-0x80000000", "-0x80000000"), ("-0x80000000", "-80000000"), ("0x0", "0x0"), ("0x0", 0), ("0x0", "0"), ("0x8", "0x8"), ("0x8", 8), ("0x8", "8"), ("0x10", "0x10"), ("0x10", "10"),
@@ -83,6 +88,7 @@ def rules_for(tier):
             for d in combos:
                 rules.append(e1.RuleCase("P1", [{"mov": [{"$deref": d}, "rdx"]}], "p1"))
                 if tier == "thorough" or (pct and a == "rax"):
+                    rules.append(e1.RuleCase("PL", [{"movq": ["0xffffffffffffffff", {"$deref": d}]}], "plong"))   # long operand field (> 40 characters)
                     rules.append(e1.RuleCase("P2", [{"mov": ["rdx", {"$deref": d}]}], "p2"))
                     rules.append(e1.RuleCase("P0", [{"lea": [{"$deref": d}]}], "p0"))
     return rules
@@ -98,7 +104,10 @@ def shards(tier):
 
 def build_lsets(h, tier):
     menu = operand_menu()
+    longf = [[("movq", ["$0xffffffffffffffff", o])] for o in menu if "%fs" not in o][::3] + \
+            [[("movabs", ["$0x1122334455667788", "%r10"]), ("movq", ["$0xffffffff80000000", "-0x12345678(%r10,%r11,8)"])]]
     return {"p1": e1.ExplicitListingSet(h, [[("mov", [o, "%rdx"])] for o in menu]),
+            "plong": e1.ExplicitListingSet(h, longf),
             "p2": e1.ExplicitListingSet(h, [[("mov", ["%rdx", o])] for o in menu]),
             "p0": e1.ExplicitListingSet(h, [[("lea", [o])] for o in menu] + [[("lea", [o, "%rdx"])] for o in menu[::7]])}
 
